@@ -56,3 +56,11 @@ for m in CORPUS:
         m.expect = [('C06.R', 'GeneralNodeHeightTransform._call::(parent,child)-loop')]
     if m.id == 'c06-bounds-min':
         m.expect = [('C06.F', 'update_bounds')]
+CORPUS += [
+    Mut('c06-nonpositive-dates-treated-as-isochronous', 'torchtree/evolution/tree_model.py', '', "    if max_date != 0.0 or min(dates) != 0.0:\n", "    if max_date != 0.0:\n", mode='text',
+        expect=[('C06.C', 'initialize_dates_from_taxa::dates ≤ 0 with the most recent one exactly 0')], note='the state of the tree before 8fdde1f'),
+    Mut('c06-sampling-times-always-flipped', 'torchtree/evolution/tree_model.py', 'TimeTreeModel.update_leaf_heights', 'if min(dates) == 0.0:…',
+        "for idx, taxon in enumerate(self._taxa):\n    leaf_heights[idx] = max_date - taxon['date']", expect=[('C06.C', 'TimeTreeModel.update_leaf_heights::earliest date zero (ages)')]),
+    Mut('c06-benign-date-test-written-the-other-way-round', 'torchtree/evolution/tree_model.py', 'TimeTreeModel.update_leaf_heights', 'if min(dates) == 0.0:…',
+        "if min(dates) != 0.0:\n    for idx, taxon in enumerate(self._taxa):\n        leaf_heights[idx] = max_date - taxon['date']\nelse:\n    for idx, taxon in enumerate(self._taxa):\n        leaf_heights[idx] = taxon['date']", benign=True),
+]
